@@ -45,6 +45,11 @@ Section Model.
 
   Record st := mkSt { front : alist sess; backs : alist bsess }.
 
+  (* one step of a handler script run on ONE BackSession without yielding the service
+     goroutine: acknowledgements (push / query callbacks) can only be handled after the last
+     step *)
+  Inductive act := ASet (k : Z) (v : val) | APush | AQuery.
+
   Inductive op :=
   | OConnect (sid : Z)
   | ORemove (sid : Z)
@@ -57,7 +62,8 @@ Section Model.
   | OBackGet (b k : Z)
   | OBackDump (b : Z)                      (* bs.ToJson() *)
   | OBackPush (b : Z)
-  | OBackQuery (b : Z).
+  | OBackQuery (b : Z)
+  | OBackScript (b : Z) (acts : list act). (* pipelined: nothing is awaited between the steps *)
 
   Inductive obs :=
   | BUnit
@@ -68,6 +74,7 @@ Section Model.
   | BFwdNone                               (* no target: error response *)
   | BOk
   | BErr                                   (* ErrorNoSession *)
+  | BAcks (l : list bool)                  (* callback results of a script's pushes / queries, in step order *)
   | BBroken.                               (* never produced by the model: the implementation did not answer at all *)
 
   Definition init : st := mkSt [] [].
@@ -90,6 +97,51 @@ Section Model.
     match aget k (b_new b) with Some v => Some v | None => aget k (b_data b) end.
 
   Definition bdump (b : bsess) : smap := norm (merge_into (b_data b) (b_new b)).
+
+  (* ---- pipelined scripts.  While the script runs, PushSession clears the dirty flag when it
+     SENDS; the front-end handles the pushes / queries in sending order (one sender); the
+     acknowledgements arrive after the script: a successful query then merges its snapshot
+     into Data and clears the dirty flag (BackSession.FromJson). ---- *)
+  Fixpoint script_new (nw : smap) (acts : list act) : smap :=
+    match acts with
+    | [] => nw
+    | ASet k v :: r => script_new (aset k v nw) r
+    | _ :: r => script_new nw r
+    end.
+
+  Fixpoint script_dirty (d : bool) (acts : list act) : bool :=
+    match acts with
+    | [] => d
+    | ASet _ _ :: r => script_dirty true r
+    | APush :: r => script_dirty false r
+    | AQuery :: r => script_dirty d r
+    end.
+
+  Definition is_query (a : act) : bool := match a with AQuery => true | _ => false end.
+  Definition has_query (acts : list act) : bool := existsb is_query acts.
+
+  (* the front-end's map of a live connection after the script's pushes *)
+  Fixpoint script_front (m nw : smap) (d : bool) (acts : list act) : smap :=
+    match acts with
+    | [] => m
+    | ASet k v :: r => script_front m (aset k v nw) true r
+    | APush :: r => if d then script_front (merge_into m (norm nw)) nw false r else script_front m nw d r
+    | AQuery :: r => script_front m nw d r
+    end.
+
+  (* what the script's queries return (the map at the moment the front-end handles them) *)
+  Fixpoint script_snaps (m nw : smap) (d : bool) (acts : list act) : list smap :=
+    match acts with
+    | [] => []
+    | ASet k v :: r => script_snaps m (aset k v nw) true r
+    | APush :: r => if d then script_snaps (merge_into m (norm nw)) nw false r else script_snaps m nw d r
+    | AQuery :: r => norm m :: script_snaps m nw d r
+    end.
+
+  Definition script_data (data : smap) (snaps : list smap) : smap := fold_left merge_into snaps data.
+
+  Definition script_acks (alive : bool) (acts : list act) : list bool :=
+    flat_map (fun a => match a with ASet _ _ => [] | APush => [true] | AQuery => [alive] end) acts.
 
   Definition step (s : st) (o : op) : st * obs :=
     match o with
@@ -171,6 +223,26 @@ Section Model.
             end
         | None => (s, BIgnored)
         end
+    | OBackScript b acts =>
+        match aget b (backs s) with
+        | Some bs =>
+            let nw := script_new (b_new bs) acts in
+            match live s (b_sid bs) with
+            | Some m =>
+                (mkSt (aset (b_sid bs) (Live (script_front m (b_new bs) (b_dirty bs) acts)) (front s))
+                      (aset b (mkB (b_sid bs)
+                                   (script_data (b_data bs) (script_snaps m (b_new bs) (b_dirty bs) acts))
+                                   nw
+                                   (if has_query acts then false else script_dirty (b_dirty bs) acts))
+                            (backs s)),
+                 BAcks (script_acks true acts))
+            | None =>
+                (mkSt (front s)
+                      (aset b (mkB (b_sid bs) (b_data bs) nw (script_dirty (b_dirty bs) acts)) (backs s)),
+                 BAcks (script_acks false acts))
+            end
+        | None => (s, BIgnored)
+        end
     end.
 
   Fixpoint run_from (s : st) (ops : list op) : st * list obs :=
@@ -201,6 +273,10 @@ Arguments OBackGet {val} b k.
 Arguments OBackDump {val} b.
 Arguments OBackPush {val} b.
 Arguments OBackQuery {val} b.
+Arguments OBackScript {val} b acts.
+Arguments ASet {val} k v.
+Arguments APush {val}.
+Arguments AQuery {val}.
 Arguments BUnit {val}.
 Arguments BIgnored {val}.
 Arguments BVal {val} v.
@@ -209,4 +285,5 @@ Arguments BFwd {val} inst id frontname sid.
 Arguments BFwdNone {val}.
 Arguments BOk {val}.
 Arguments BErr {val}.
+Arguments BAcks {val} l.
 Arguments BBroken {val}.
